@@ -353,6 +353,7 @@ func (c *FnCtx) model(fr *Frame, st *State, x *ssa.Call, name string, args []*Te
 		return []*Term{o}
 	case "(*bytes.Buffer).WriteString", "(*strings.Builder).WriteString", "(*bytes.Buffer).Write", "(*strings.Builder).Write":
 		use("Buffer/Builder.Write*: appends to the content, returns (len, nil)")
+		c.escapeObligations(st, args[1], x.Pos(), "write")
 		old := c.gget(st, "G:buf", args[0])
 		c.gset(st, "G:buf", args[0], ts.Concat(old, args[1]))
 		return []*Term{ts.Len(args[1]), nilVal(ts)}
